@@ -879,12 +879,25 @@ func runC12Local(c *Ctx) {
 			ovrs[i] = o
 			r.hist("local_jobs_with_overrides")
 		}
+		nv0 := len(r.Violations)
 		runLocalRound(c, round, g, reqs, ovrs)
 		stalled := false
 		for _, v := range r.Violations {
 			if v.Key == "C12:local:stall" || v.Key == "C12:local:job-did-not-end" {
 				stalled = true
 			}
+		}
+		// one confirmed violation of this stream is enough: every further round would be
+		// re-executed alone with doubled waits as well (the recorded finding F18 does not count)
+		confirmed := false
+		for _, v := range r.Violations[nv0:] {
+			if v.Key != "C12:local:vmem-floor-above-limit" {
+				confirmed = true
+			}
+		}
+		if confirmed && !stalled {
+			r.note("local job rounds stopped after the first confirmed violation")
+			break
 		}
 		if stalled {
 			r.note("local job rounds stopped after the first stall")
